@@ -17,6 +17,7 @@ import (
 	"strconv"
 	"strings"
 	"sync"
+	"time"
 
 	"github.com/tailscale/setec/audit"
 	"github.com/tailscale/setec/db"
@@ -152,8 +153,9 @@ type auditSink struct {
 	lastHash [32]byte
 	buf      []byte
 	dead     bool
-	torn     int    // quiet mode: writes that were not whole records
-	hook     func() // if set: called once, outside the sink's own lock, when the next record arrives
+	torn     int           // quiet mode: writes that were not whole records
+	delay    time.Duration // quiet mode: sleep this long in every Write
+	hook     func()        // if set: called once, outside the sink's own lock, when the next record arrives
 }
 
 func fileHash(path string) [32]byte {
@@ -182,6 +184,12 @@ func (s *auditSink) Write(p []byte) (int, error) {
 	}
 	defer s.mu.Unlock()
 	if s.quiet {
+		if s.delay > 0 { // a slow log device: widens every window around the audit record (lock released, yielding)
+			d := s.delay
+			s.mu.Unlock()
+			time.Sleep(d)
+			s.mu.Lock()
+		}
 		// still READ what is handed over (so that the race detector sees a buffer that is being
 		// rewritten by another request) and note anything that is not one or more complete records
 		if len(p) == 0 || p[len(p)-1] != '\n' {
